@@ -859,3 +859,30 @@ func Refine(x *Term, lo, hi *big.Int) *Term {
 	t.Lo, t.Hi = nlo, nhi
 	return t
 }
+
+// Collapse reports whether the big-endian byte terms ms are exactly the bytes of a single integer
+// (a constant, or the ExtractByte pattern of one term) and returns that integer.
+func Collapse(ms []*Term) (*Term, bool) {
+	if len(ms) == 0 {
+		return nil, false
+	}
+	allConst := true
+	for _, b := range ms {
+		if b.Op != OpConst {
+			allConst = false
+			break
+		}
+	}
+	r := Recombine(ms)
+	if allConst {
+		return r, true
+	}
+	if r.Op == OpAdd || r.Op == OpMul {
+		// fallback sum (or a Refine alias, which is fine)
+		if !(r.Op == OpAdd && len(r.Args) == 2 && r.Args[1].Op == OpConst && r.Args[1].Val.Sign() == 0) {
+			return nil, false
+		}
+	}
+	// single symbolic byte with only leading zeros also collapses (Recombine returned that byte)
+	return r, true
+}
